@@ -48,7 +48,8 @@ def run(writer, cfg, ops, root, chdir, workdir, extra_env=None, timeout=120):
         p = subprocess.run(cmd, env=_env(ovl, root, lp, extra_env), stdout=subprocess.DEVNULL, stderr=subprocess.PIPE, timeout=timeout)
         rc, err = p.returncode, p.stderr.decode(errors="replace")
     except subprocess.TimeoutExpired:
-        rc, err = -999, "timeout"
+        from .campaign import HarnessError
+        raise HarnessError("writer under the interposer did not finish within %d s (machine overloaded?)" % timeout)
     return rc, rfharness.parse_log(lp), err
 
 
@@ -97,5 +98,6 @@ def run_paused(writer, cfg, ops, root, chdir, workdir, on_point, timeout=600):
             rc = p.wait(timeout=timeout)
         except subprocess.TimeoutExpired:
             p.kill()
-            rc = -999
+            from .campaign import HarnessError
+            raise HarnessError("paused writer did not exit within %d s" % timeout)
     return rc, rfharness.parse_log(lp), npoints
